@@ -88,7 +88,8 @@ SemanticClauses(r) ==
     IN
     << Cl("values-on-lattice", r.offl = << >>),
        Cl("row-denominators", \A a \in 1 .. NPx(r) : r.drow[a] = DRow(tb, r.sub, a)),
-       Cl("rows-non-negative", \A a \in 1 .. NPx(r) : \A c \in 1 .. r.P : r.M[a][c] >= 0),
+       \* (an entry that was off the lattice is carried as -2 and belongs to the clause above)
+       Cl("rows-non-negative", \A a \in 1 .. NPx(r) : \A c \in 1 .. r.P : r.M[a][c] >= 0 \/ (r.M[a][c] = -2 /\ r.offl # << >>)),
        Cl("rows-sum-to-one", \A a \in 1 .. NPx(r) : SumOver(1 .. r.P, LAMBDA c : r.M[a][c]) = r.drow[a]),
        Cl("entry-is-sum-of-sub-fraction-times-weight", r.M = want),
        Cl("unique-no-repeated-source-pixel", \A a \in 1 .. NPx(r) : NoRepeats(r.uniq[a])),
